@@ -85,8 +85,41 @@ def user_dense(spec):
             r = r + np.array([0.0 if b is None else 0.5 * np.dot(np.abs(x), np.abs(b).dot(np.abs(x))) for b in B])
         return r
 
+    aQ, aq, aA, aW, aa = np.abs(Q), np.abs(q), np.abs(A), np.abs(W), np.abs(a)
+
+    def fabs(x):
+        ax = np.abs(x)
+        v = 0.5 * ax.dot(aQ.dot(ax)) + aq.dot(ax)
+        if a.size:
+            v = v + np.sum(aa * (_softplus(W.dot(x)) + 1.0))
+        return float(v)
+
+    def gabs(x):
+        r = aQ.dot(np.abs(x)) + aq
+        if a.size:
+            r = r + aW.T.dot(aa)
+        return r
+
+    def Jabs(x):
+        r = np.array(aA, copy=True)
+        if B is not None:
+            for i, b in enumerate(B):
+                if b is not None:
+                    r[i] = r[i] + np.abs(b).dot(np.abs(x))
+        return r
+
+    def Habs(x, yabs):
+        r = np.array(aQ, copy=True)
+        if a.size:
+            r = r + (aW.T * aa).dot(aW)
+        if B is not None:
+            for i, b in enumerate(B):
+                if b is not None:
+                    r = r + yabs[i] * np.abs(b)
+        return r
+
     P = Dense(n, m, spec.var_lb, spec.var_ub, spec.cons_lb, spec.cons_ub, f, g, c, J, H)
-    P.cabs = cabs
+    P.cabs, P.fabs, P.gabs, P.Jabs, P.Habs = cabs, fabs, gabs, Jabs, Habs
     return P
 
 
@@ -154,6 +187,19 @@ def internal_dense(P, w=None):
 
     D = Dense(N, m, np.concatenate([lb_s, l_s[S]]), np.concatenate([ub_s, u_s[S]]),
               np.zeros(m), np.zeros(m), f, g, c, J, H)
+    if hasattr(P, "fabs"):
+        # magnitude bounds (sum of absolute values of all terms) for rounding allowances
+        D.fabs = lambda z: so * P.fabs(split(z)[0])
+        D.gabs = lambda z: np.concatenate([so * P.gabs(split(z)[0]) / sv, np.zeros(ns)])
+        D.cabs = lambda z: sc * P.cabs(split(z)[0]) + np.abs(off) + E.dot(np.abs(split(z)[1]))
+        D.Jabs = lambda z: np.hstack([(sc[:, None] * P.Jabs(split(z)[0])) / sv[None, :], E])
+
+        def Habs(z, yabs):
+            out = np.zeros((N, N))
+            out[:n, :n] = so * P.Habs(split(z)[0], yabs * sc / so) / sv[:, None] / sv[None, :]
+            return out
+
+        D.Habs = Habs
     D.S = S
     D.n_orig = n
     D.weights = w
